@@ -40,6 +40,9 @@ class C12Src(SrcWorld):
             evs.append(("put", "valid"))  # the next transaction on the same handler (whatever way the previous one ended)
         if st.m["ncancel"] < 2:
             evs += [("cancel", "right"), ("cancel", "wrong")]
+            if self.cfg.get("max_tx", 1) > 1 and st.m["tx"] < self.cfg["max_tx"] and st.m["tid"] and not st.m["done"] and st.m["cancelled"] is None:
+                # the user cancels and at once submits the next put request, before fetching what the cancel request queued
+                evs.append(("cancel+put",))
         if self.c["mode"] == "ack" and st.m["nnak"] < 2 and step in ("SENDING_FILE_DATA", "RETRANSMITTING", "WAITING_FOR_EOF_ACK", "WAITING_FOR_FINISHED") \
                 and st.m["covered"] > 0:
             evs.append(("nak", ((0, min(st.m["covered"], eff_seg(self.c))),)))  # a valid retransmission request, before or after the cancel
@@ -55,9 +58,49 @@ class C12Src(SrcWorld):
             evs.append(("expire",))
         return evs
 
+    def apply(self, st, ev):
+        if ev[0] != "cancel+put":
+            return super().apply(st, ev)
+        ent = st.S
+        out = {"pre_step": ent.h.states.step.name, "pre_state": ent.h.state.name, "timers": [0, 0]}
+        ent.autodrain = False
+        try:
+            o1, _, ret1 = ent.call(ent.h.cancel_request, self.cur_tid(st))
+            o2, _, ret2 = ent.call(ent.h.put_request, self.put_req("valid"))
+        finally:
+            ent.autodrain = True
+        msgs = ent.drain()
+        obs = dict(o1)
+        if "exc" in o2 and "exc" not in obs:
+            obs["exc"] = o2["exc"]
+        for k in ("ind", "faults"):
+            if o1.get(k) or o2.get(k):
+                obs[k] = list(o1.get(k, [])) + list(o2.get(k, []))
+        if msgs:
+            obs["out"] = [m.d for m in msgs]
+        out["ret"], out["ret_put"] = ret1, ret2
+        out["idle_between"] = ret2 is True
+        if obs:
+            out["S"] = obs
+        out["post_step"] = ent.h.states.step.name
+        out["post_state"] = ent.h.state.name
+        if ret2 is True:
+            st.nput += 1
+        self.update_model(st, ev, out)
+        return out
+
     def update_model(self, st, ev, out):
         m = dict(st.m)
         out["pre_m"] = dict(st.m)
+        if ev[0] == "cancel+put":
+            m["ncancel"] += 1
+            if out.get("ret") is True and m["cancelled"] is None:
+                eofs = [d for d in self.emitted(out) if d["T"] == "EOF"]
+                m["cancelled"] = eofs[0] if eofs else {"T": "none"}
+            if out.get("ret_put") is True:
+                m = {"covered": 0, "cancelled": None, "tid": False, "done": False, "ncancel": 0, "by_fault": False, "nnak": 0, "tx": m["tx"] + 1}
+            st.m = m
+            return
         if ev[0] == "put":
             if out.get("ret") is True:
                 m = {"covered": 0, "cancelled": None, "tid": False, "done": False, "ncancel": 0, "by_fault": False, "nnak": 0, "tx": m["tx"] + 1}
@@ -99,6 +142,18 @@ class C12Src(SrcWorld):
             v.append(Violation(P, clause, f"sender {ev} ({out['pre_state']}/{out['pre_step']} -> {out['post_state']}/{out['post_step']}, "
                                             f"{pre['covered']} bytes sent): {msg}", side="sender", **d))
 
+        if ev[0] == "cancel+put":
+            if e:
+                bad("C12.cancel_exception", f"cancel request directly followed by a put request raised {e['exc']} in {e['site']}", exc=e["exc"], site=e["site"], md_only=c["md_only"])
+                return v
+            if out.get("ret") is not True:
+                bad("C12.return_value", f"cancel_request(right id) returned {out.get('ret')!r}, expected True", id="right", got=out.get("ret"))
+                return v
+            if not emitted or emitted[0]["T"] != "EOF":
+                bad("C12.no_cancel_eof", f"the next PDU after a successful cancel (followed at once by a put request) is {[d['T'] for d in emitted[:1]] or 'none'}, expected an EOF")
+            else:
+                self._judge_eof(st, emitted[0], pre["covered"], bad, first=True)
+            return v
         if ev[0] == "put":
             if e or out.get("ret") is not True:
                 bad("C12.next_put_refused", f"put request on the idle handler after the previous transaction ended: {e['exc'] if e else out.get('ret')!r}")
